@@ -150,8 +150,9 @@ def run_property(prop, tier="quick", db=None, only_rule=None, quiet=False):
     try:
         if db is None:
             db = facts.DB(REPO)
-        # import the rule module
-        __import__("verif.rules.%s" % prop.lower())
+        # import every rule module: rules are shared between properties (props=[...]) wherever one mechanism carries several of them
+        for i in range(1, 21):
+            __import__("verif.rules.c%02d" % i)
     except AnalysisError as e:
         errors.append("setup: %s" % e)
     except Exception:
